@@ -461,7 +461,7 @@ def run(ctx):
                        "distinct = (case, fault position)")
     ctx.cov["lexical_shape_secondary"] = lexical_shape()
     quick = ctx.tier == "quick"
-    n_gen, n_corpus, n_seq = (12, 4, 10) if quick else (50, 30, 80)
+    n_gen, n_corpus, n_seq = (10, 3, 8) if quick else (40, 24, 60)
     rng = ctx.rng
     cases = []
     # directed corners first, then random ones
